@@ -22,7 +22,7 @@ TRUSTED = ['FK_spec transcribed from MuJoCo documentation (validated against the
            'paper lemma: induction over depth from link_step + root + regroup obligations',
            'brax.math.normalize used through its verified contract (C09/normalize/contract_*)']
 ASSUMPTIONS = ['exact reals; slide coordinates with cos(q/2) > 0 (|q| <= 2 < pi)', 'velocities of stacked / offset-anchor joints are outside the claim (documented upstream TODO)',
-               'load_model field mapping (body_pos -> link.transform ...) is covered by the bounded check only']
+               'the MuJoCo compiler (XML -> MjModel) is covered by the bounded check only; the MjModel -> System field mapping of load_model is a proved premise (C01/premise/load_model/mapping)']
 BOUNDED_RULE = 'generator models (1-6 links) x random states; non-trivial = distinct (model, state) pairs'
 
 WORDS = ['h', 's', 'hh', 'hs', 'sh', 'ss', 'hhh', 'hhs', 'hsh', 'shh', 'hss', 'shs', 'ssh', 'sss']
@@ -262,6 +262,11 @@ def obligations(tier):
   for w in ('h', 's'):
     obs.append(link_step(w, 'free', 'vel', Q, origin=True))
     obs.append(link_step(w, 'root', 'vel', Q, origin=True))
+  # "sys.link.transform / sys.link.joint / sys.dof.motion loaded from MJCF": load_model's field mapping (C14's contract on the real loader) as a premise
+  from verif.contracts import C14c
+  for ob in C14c.obligations(tier):
+    ob.id = ob.id.replace('C14/', 'C01/premise/')
+    obs.append(ob)
   obs += [regroup_tree(4), regroup_types(4 if tier == 'quick' else 5), take_contract(4, 4) if tier == 'quick' else take_contract(5, 5), bounded(tier)]
 
   def _sv():
